@@ -101,6 +101,11 @@ func getArrayPrototype() *Value {
 					}
 
 					for _, item := range *this.Array {
+						if v[0].Tag == ValueUnknown || item.Value.Tag == ValueUnknown {
+							// like with ==, an unset value isn't equal to anything
+							continue
+						}
+
 						comp, err := v[0].Compare(&item.Value)
 						if err != nil {
 							return nil, err
